@@ -49,6 +49,8 @@ def _copy_exception_as(cls, exception):
           descriptor.__set__(copy, descriptor.__get__(exception, klass))
         except (AttributeError, TypeError):
           pass  # Unset on `exception`, or read-only.
+  # Assigning `__cause__` (even `None`) sets this flag, so restore it last.
+  copy.__suppress_context__ = exception.__suppress_context__
   return copy
 
 
